@@ -800,7 +800,9 @@ class BaseSetIndexSortValues(Expr):
 
     @property
     def npartitions(self):
-        return self.operand("npartitions") or len(self._divisions()) - 1
+        # ``npartitions=`` is the requested number: fewer quantile divisions
+        # may exist, and the divisions are what defines the partitions
+        return len(self.divisions) - 1
 
 
 class SetIndex(BaseSetIndexSortValues):
@@ -907,7 +909,11 @@ class SetIndex(BaseSetIndexSortValues):
                     upsample=self.upsample,
                 )[3]
 
-            if presorted and self.npartitions == self.frame.npartitions:
+            if (
+                presorted
+                and self.npartitions == self.frame.npartitions
+                and self._npartitions_input == self.frame.npartitions
+            ):
                 index_set = SetIndexBlockwise(
                     self.frame, self._other, self.drop, divisions, self.append
                 )
